@@ -261,6 +261,7 @@ inductive ErrClass
   | expectedDef                    -- "expected struct, oneof or multimap"
   | structName | multimapName | enumName
   | dupTop (n : Name) | dupField (n : Name)
+  | dupEnumField (n : Name)        -- "duplicate enum field name: " (parseEnumField, since ed6fa67)
   | oneofDict | oneofRoot | rootEmpty
   | dictName | arrayType | typeExpected | dictPrim | pkgIdent | enumValue
   | unknownType | ambiguousType    -- from ResolveRefs
@@ -453,18 +454,23 @@ def parseMultimap (σ : Schema) (ts : List Token) : PR Schema :=
         .ok { σ with multimaps := σ.multimaps ++ [{ name := mname, key := k, value := v }] } ts
   | _ => .err (cur ts).pos .multimapName
 
-/-- `parseEnumFields` (no check for repeated member names, as written) -/
+/-- `parseEnumFields` / `parseEnumField`. A member name that the enum already declares is an
+    error positioned at the repeated identifier (since commit ed6fa67; before, there was no
+    check and the enum was accepted with the name twice). Go appends the new `EnumField` before
+    it parses `= value`; every failure after that point discards the schema, so the model
+    appends once the value is known. -/
 def parseEnumFields : Nat → List EnumField → List Token → PR (List EnumField)
   | 0, _, ts => .err (cur ts).pos .outOfFuel
   | n + 1, fs, ts =>
     match (cur ts).tok with
     | .ident fname =>
-      match eat (.punct '=') (adv ts) with
-      | .err p c => .err p c
-      | .ok _ ts =>
-        match (cur ts).tok with
-        | .num v => parseEnumFields n (fs ++ [{ name := fname, value := v }]) (adv ts)
-        | _ => .err (cur ts).pos .enumValue
+      if fs.any (·.name = fname) then .err (cur ts).pos (.dupEnumField fname)
+      else match eat (.punct '=') (adv ts) with
+        | .err p c => .err p c
+        | .ok _ ts =>
+          match (cur ts).tok with
+          | .num v => parseEnumFields n (fs ++ [{ name := fname, value := v }]) (adv ts)
+          | _ => .err (cur ts).pos .enumValue
     | _ => .ok fs ts
 
 /-- `parseEnum` -/
